@@ -6,6 +6,7 @@ where CPython can switch threads) a REAL second thread performs a complete appen
 operation continues."""
 from __future__ import annotations
 
+import asyncio
 import random
 import threading
 from fractions import Fraction
@@ -141,17 +142,105 @@ def nontrivial(case, ob):
 
 
 def signature(stream, case, msg):
-    return KNOWN if msg.startswith("[struck]") else None
+    return None
+
+
+def oracle_class(case, ob):
+    """the bare PosPriorityQueue class is not thread-safe by itself (that is what Queue/Threads.v models and what
+    C18_strike_always_raises characterises); the property is about the event loops, judged by the `loop` stream.
+    This stream only validates the model, so that the refutation of the pre-fix loop stays tied to the code."""
+    if not isinstance(ob, list) or len(ob) != 2:
+        return f"runner failed: {ob!r}"[:200]
+    if not case.get("_struck"):
+        return oracle(case, ob)          # a sequential history must be flawless
+    return None
+
+
+def impl_loop(case):
+    """the same strikes at the level of the real priority loop: the foreign thread calls
+    loop.call_soon_threadsafe() while the loop thread is inside a queue operation; afterwards the loop
+    does what the start of its next iteration does"""
+    from asynkit.experimental.priority import PrioritySelectorEventLoop
+    loop = PrioritySelectorEventLoop()
+    try:
+        q = loop.ready_queue
+        q.priority_boost_factor = 0.0
+        ids = {}
+        table = {}
+        q._get_priority = lambda h: table.get(ids.get(id(h)), 0.0)
+
+        def reg(h, o, p):
+            ids[id(h)] = o
+            table[o] = float(fr(p))
+            return h
+        keep = []
+        for o, p in case["pre"]:
+            h = asyncio.Handle(lambda: None, (), loop)
+            keep.append(reg(h, o, p))
+            q.append(h)
+        fo, fp = case["foreign"]
+        op = case["op"]
+        kind = op[0]
+        byobj = lambda o: (lambda h: ids.get(id(h)) == o)
+        if kind == "popleft":
+            f = lambda: ids[id(q.popleft())]
+        elif kind == "append":
+            h2 = reg(asyncio.Handle(lambda: None, (), loop), op[1], op[2]); keep.append(h2)
+            f = lambda: q.append(h2)
+        elif kind == "findremove":
+            f = lambda: (lambda r: None if r is None else ids[id(r)])(q.find(byobj(op[1]), True))
+        elif kind == "resched":
+            f = lambda: (lambda r: None if r is None else ids[id(r)])(q.reschedule(byobj(op[1]), float(fr(op[2]))))
+        else:
+            f = lambda: (list(q), None)[1]
+
+        def foreign():
+            # what another thread does: submit a callback; its priority is looked up when it is queued
+            orig_handle = asyncio.Handle
+
+            h = loop.call_soon_threadsafe(lambda: None)
+            reg(h, fo, fp)
+            keep.append(h)
+        # the priority of the foreign handle must be known before it is queued
+        pending = {}
+        orig_gp = q._get_priority
+        q._get_priority = lambda h: table.get(ids.get(id(h)), float(fr(fp)))
+        out, struck = run_with_strike(q, f, case["k"], foreign)
+        if hasattr(loop, "_drain_threadsafe_inbox"):
+            loop._drain_threadsafe_inbox()
+        case["_struck"] = struck
+        st = pos_state(q)
+        st[4] = [e[:5] + [ids.get(id(e[5]), -1)] for e in st[4]]
+        return [out, st]
+    finally:
+        loop._ready.clear()
+        loop.close()
+
+
+def to_coq_loop(case):
+    c = dict(case)
+    c["k"] = 1000          # the repaired loop never lets the append strike: the model is the sequential composition
+    return to_coq(c)
+
+
+def gen_loop(rng, tier):
+    for c in gen(rng, tier):
+        if c["op"][0] != "iter":
+            yield c
 
 
 PROP = Prop(
     pid="C18",
     props_v="theories/Props/C18.v",
     theory_files=["theories/Queue/Threads.v", "theories/Queue/ThreadsCorr.v", "theories/Queue/ThreadsProofs.v"],
-    streams=[Stream(name="strike", imports=["Queue.PQ", "Queue.PosPQ", "Queue.Threads", "Queue.ThreadsCorr"],
+    streams=[Stream(name="loop", imports=["Queue.PQ", "Queue.PosPQ", "Queue.Threads", "Queue.ThreadsCorr"],
                     run="threads_run", input_type="list (Z * Q) * top * nat * (Z * Q)",
-                    gen=gen, impl=impl, to_coq=to_coq, oracle=oracle, nontrivial=nontrivial,
-                    corr_name="PosPriorityQueue under a foreign append (Queue/Threads.v)")],
+                    gen=gen_loop, impl=impl_loop, to_coq=to_coq_loop, oracle=oracle, nontrivial=nontrivial,
+                    corr_name="priority loop: call_soon_threadsafe during a queue operation = sequential history"),
+             Stream(name="strike", imports=["Queue.PQ", "Queue.PosPQ", "Queue.Threads", "Queue.ThreadsCorr"],
+                    run="threads_run", input_type="list (Z * Q) * top * nat * (Z * Q)",
+                    gen=gen, impl=impl, to_coq=to_coq, oracle=oracle_class, nontrivial=nontrivial,
+                    corr_name="PosPriorityQueue class under a foreign append (Queue/Threads.v)")],
     rule="every loop-thread operation in {popleft, append, find+remove, reschedule, iteration} on queues of 1..8 "
          "(thorough: 1..16) entries x every index k of a PriEntry.__lt__ evaluation inside the operation (and beyond: "
          "then the append happens after it) x a foreign append of priority in {0, -2, 3} performed by a real second "
